@@ -325,6 +325,47 @@ Section RoundTrip.
     - rewrite H2. exact H5.
   Qed.
 
+  (* every seek origin and every offset inside the file: stell reports the target, sread delivers
+     the bytes that lie there *)
+  Definition seek_target (len pos : nat) (off : Z) (o : origin) : option Z :=
+    match o with
+    | SeekSet => Some off
+    | SeekCur => Some (Z.of_nat pos + off)%Z
+    | SeekEnd => Some (Z.of_nat len + off)%Z
+    | SeekBad => None
+    end.
+
+  Theorem spec_seek_tell_read : forall i off o n t (a : sworld) s,
+    sw_objs B a i = SOpen s -> m_read (s_mode s) = true ->
+    seek_target (length (content B (sw_fs B a) (s_path s))) (s_pos s) off o = Some (Z.of_nat t) ->
+    0 < n -> t + n <= length (content B (sw_fs B a) (s_path s)) ->
+    snd (srun a [OSeek B i off o; OTell B i; OEof B i; ORead B i n; OTell B i]) =
+      [OkUnit B; OkNum B t; OkBool B false;
+       OkRead B 1 (firstn n (skipn t (content B (sw_fs B a) (s_path s)))); OkNum B (t + n)].
+  Proof.
+    intros i off o n t a s Hi Hr Ht Hn Hlen.
+    set (c := content B (sw_fs B a) (s_path s)) in *.
+    assert (Hsk : fseek B (sw_fs B a) s off o = Some (set_pos s t false)).
+    { unfold fseek. fold c. destruct o; simpl in Ht; try discriminate; inversion Ht as [Ht']; clear Ht.
+      all: match goal with |- (if (?e <? 0)%Z then _ else _) = _ => replace e with (Z.of_nat t) by lia end.
+      all: destruct (Z.ltb_spec (Z.of_nat t) 0); [lia|]; rewrite Nat2Z.id; auto. }
+    rewrite srun_cons, (sseek_open a i s off o _ Hi Hsk). cbv beta match.
+    set (a1 := s_set B a i (SOpen (set_pos s t false))).
+    assert (Hi1 : sw_objs B a1 i = SOpen (set_pos s t false)) by (unfold a1; simpl; apply upd_same).
+    rewrite srun_cons, (stell_open a1 i _ Hi1). cbv beta match.
+    rewrite srun_cons, (seof_open a1 i _ Hi1). cbv beta match.
+    destruct (sreads i [n] a1 (set_pos s t false) Hi1) as (a2 & s2 & Hrun & H1 & H2 & H3 & H4 & H5 & H6 & H7).
+    { simpl. auto. }
+    { unfold a1; simpl. fold c. lia. }
+    change [ORead B i n; OTell B i] with (map (ORead B i) [n] ++ [OTell B i]).
+    rewrite srun_app, Hrun. cbv beta match.
+    rewrite srun_one, (stell_open a2 i s2 H1). cbv beta match.
+    unfold a1 in *. simpl in *. fold c. rewrite H6.
+    assert (Hg : got (firstn n (skipn t c)) = OkRead B 1 (firstn n (skipn t c))).
+    { unfold got. f_equal. rewrite firstn_length, skipn_length. lia. }
+    rewrite Hg. replace (t + (n + 0)) with (t + n) by lia. reflexivity.
+  Qed.
+
   (* ------------------------------------------------------------------ the same for the model of File.c *)
   Notation runF := (run B zero is_ws is_digit is_sign creatable close_fails true true).
 
@@ -376,5 +417,26 @@ Section RoundTrip.
     split; [|apply pieces_concat; auto].
     rewrite <- Ho. unfold seek_history, seek_outcome.
     apply spec_roundtrip_seek; auto. simpl. rewrite Hi. reflexivity.
+  Qed.
+
+  Theorem seek_tell_read_anywhere : forall fs objs pre i h off o n t,
+    (forall j h', objs j <> FObj (Some h')) ->
+    let w := fst (runF (w_init B fs objs) pre) in
+    w_objs B w i = FObj (Some h) ->
+    let s := f_st (w_files B w h) in
+    let c := content B (w_fs B w) (s_path s) in
+    m_read (s_mode s) = true ->
+    seek_target (length c) (s_pos s) off o = Some (Z.of_nat t) -> 0 < n -> t + n <= length c ->
+    snd (runF w [OSeek B i off o; OTell B i; OEof B i; ORead B i n; OTell B i]) =
+      [OkUnit B; OkNum B t; OkBool B false; OkRead B 1 (firstn n (skipn t c)); OkNum B (t + n)].
+  Proof.
+    intros fs objs pre i h off o n t Hn w Hi s c Hr Ht Hpos Hlen.
+    destruct (run_inv B zero is_ws is_digit is_sign creatable close_fails pre _ (inv_init B fs objs Hn)) as [Hinv _].
+    fold w in Hinv.
+    destruct (run_refines B zero is_ws is_digit is_sign creatable close_fails
+                [OSeek B i off o; OTell B i; OEof B i; ORead B i n; OTell B i] w _ Hinv (equiv_refl B w)) as [Ho _].
+    rewrite <- Ho.
+    apply (spec_seek_tell_read i off o n t (abs B w) s); auto.
+    simpl. rewrite Hi. reflexivity.
   Qed.
 End RoundTrip.
